@@ -135,7 +135,9 @@ pub fn check(case: &Case, w: usize) -> CheckResult {
                         name
                     }
                     _ => {
-                        let tok = format!("token-{}", idx);
+                        // an arbitrary token; one in four is the empty string (`--id ""` is accepted
+                        // and stored like any other id)
+                        let tok = if idx % 4 == 3 { String::new() } else { format!("token-{}", idx) };
                         args.push("--id".into());
                         args.push(tok.clone());
                         classes.insert("update --id <token>");
